@@ -641,8 +641,6 @@ void dump_group()
       }
       {
         // a const VALUE object holding sentinels: read window relative to its own data()
-        alignas(64) S vbuf[MAXBUF];
-        for (int i = 0; i < total; ++i) vbuf[i] = after[i];
         G val;
         for (int i = 0; i < R; ++i) val.coeffs()(i) = after[vo + i];
         const G & cval = val;
